@@ -97,10 +97,10 @@ fn before(w: &[u64; 4], i0: Option<usize>, i: usize, j: usize) -> bool {
 // (a) the real `ClosestBucketsIter` (called directly), and
 // (b) `FragBucketsIter`: the bodies of ClosestBucketsIter::{new,next_in,next_out,next}
 //     extracted verbatim from /repo on every run (unit.json `fragments`), with ONE
-//     declared rewrite: the two range expressions `(0..i.get()).rev()` and
-//     `(i.get() + 1..NUM_BUCKETS)` become `verif_rev_range(..)` / `verif_range(..)`,
-//     whose `find_map` is the ASSUMED CONTRACT of core's `Iterator::find_map` over
-//     `Range<usize>` / `Rev<Range<usize>>` (below) instead of libcore's loop.
+//     declared rewrite: the two calls `.find_map(` become `.verif_find_map(`, which
+//     applies the ASSUMED CONTRACT of core's `Iterator::find_map` over
+//     `Range<usize>` / `Rev<Range<usize>>` (below) instead of libcore's loop; the
+//     range expressions and the closures stay the extracted text.
 // Reason (measured): with a symbolic start index the 256-iteration `find_map`
 // loops of (a) do not terminate under CBMC (chains of 256 symbolic increments and
 // symbolic shifts: > 900 s for a 64-value block of indices), with a concrete or
@@ -142,36 +142,64 @@ pub(crate) struct ModelRange {
     hi: usize,
     rev: bool,
 }
-fn verif_range(lo: usize, hi: usize) -> ModelRange {
-    ModelRange { lo, hi, rev: false }
+/// `.find_map(` in the extracted text is rewritten to `.verif_find_map(`: same
+/// receiver (the real `Range<usize>` / `Rev<Range<usize>>` value built by the
+/// extracted text), the search itself replaced by the assumed contract.
+pub(crate) trait VerifFindMap {
+    fn verif_find_map<B>(self, f: impl FnMut(usize) -> Option<B>) -> Option<B>;
 }
-fn verif_rev_range(lo: usize, hi: usize) -> ModelRange {
-    ModelRange { lo, hi, rev: true }
+impl VerifFindMap for std::ops::Range<usize> {
+    fn verif_find_map<B>(self, f: impl FnMut(usize) -> Option<B>) -> Option<B> {
+        let (lo, hi) = if self.start < self.end { (self.start, self.end) } else { (0, 0) };
+        ModelRange { lo, hi, rev: false }.find_map(f)
+    }
+}
+impl VerifFindMap for std::iter::Rev<std::ops::Range<usize>> {
+    fn verif_find_map<B>(self, f: impl FnMut(usize) -> Option<B>) -> Option<B> {
+        // the first element of the reversed range is its largest, the last its smallest (O(1) on Range)
+        let (lo, hi) = match (self.clone().next_back(), self.clone().next()) {
+            (Some(min), Some(max)) => (min, max + 1),
+            _ => (0, 0),
+        };
+        ModelRange { lo, hi, rev: true }.find_map(f)
+    }
 }
 impl ModelRange {
     /// ASSUMED CONTRACT of `core::iter::Iterator::find_map` on `lo..hi` (ascending)
     /// and `(lo..hi).rev()` (descending), for a pure `f`:
     ///   returns Some(f(x)) for the FIRST x in iteration order with f(x) = Some(_),
     ///   None if there is no such x.
-    /// "First" / "no such" are universally quantified; the model assumes them for
-    /// the one index the harness will ask about (WITNESS), which is weaker than the
-    /// contract (more behaviours), hence sound for proving the harness assertions.
+    /// "First" / "no such" are universally quantified; the model assumes them at
+    /// three indices (the one the harness will ask about, WITNESS, and the two ends of
+    /// the range), which is weaker than the contract (more behaviours), hence sound
+    /// for proving the harness assertions.
     fn find_map<B>(self, mut f: impl FnMut(usize) -> Option<B>) -> Option<B> {
-        let w = unsafe { WITNESS };
-        let w_in = self.lo <= w && w < self.hi;
+        // instantiation points of the universally quantified part of the contract:
+        // the harness's index and the two ends of the range
+        let pts = [unsafe { WITNESS }, self.lo, self.hi.wrapping_sub(1)];
         if kani::any() {
             let x: usize = kani::any();
             kani::assume(self.lo <= x && x < self.hi);
             let y = f(x);
             kani::assume(y.is_some());
-            let earlier = if self.rev { w > x } else { w < x };
-            if w_in && earlier {
-                kani::assume(f(w).is_none());
+            let mut k = 0;
+            while k < 3 {
+                let w = pts[k];
+                let earlier = if self.rev { w > x } else { w < x };
+                if self.lo <= w && w < self.hi && earlier {
+                    kani::assume(f(w).is_none());
+                }
+                k += 1;
             }
             y
         } else {
-            if w_in {
-                kani::assume(f(w).is_none());
+            let mut k = 0;
+            while k < 3 {
+                let w = pts[k];
+                if self.lo <= w && w < self.hi {
+                    kani::assume(f(w).is_none());
+                }
+                k += 1;
             }
             None
         }
@@ -213,7 +241,7 @@ fn check_step<S: Stepper>(w: &[u64; 4], i0: Option<usize>, it: &mut S) {
 // ---- (b) every state, every distance: extracted text + find_map contract ----------
 /// new(d) starts in Start(i0) (nothing yielded); the first step satisfies the contract.
 #[kani::proof]
-#[kani::unwind(4)]
+#[kani::unwind(34)]
 fn frag_step_new_and_start() {
     let (w, d) = any_distance();
     let i0 = top(&d);
@@ -225,7 +253,7 @@ fn frag_step_new_and_start() {
 
 /// One step from ANY ZoomIn state (all 2^256 distances, all 256 indices).
 #[kani::proof]
-#[kani::unwind(4)]
+#[kani::unwind(34)]
 fn frag_step_zoom_in() {
     let (w, d) = any_distance();
     let i0 = top(&d);
@@ -237,7 +265,7 @@ fn frag_step_zoom_in() {
 
 /// One step from ANY ZoomOut state.
 #[kani::proof]
-#[kani::unwind(4)]
+#[kani::unwind(34)]
 fn frag_step_zoom_out() {
     let (w, d) = any_distance();
     let i0 = top(&d);
@@ -249,7 +277,7 @@ fn frag_step_zoom_out() {
 
 /// Done is absorbing.
 #[kani::proof]
-#[kani::unwind(4)]
+#[kani::unwind(34)]
 fn frag_step_done() {
     let (w, d) = any_distance();
     let i0 = top(&d);
@@ -403,7 +431,7 @@ fn lemma_before_is_strict_total_order() {
 
 /// Vacuity canary (extracted text + model): must FAIL (a zoom-out step does end).
 #[kani::proof]
-#[kani::unwind(4)]
+#[kani::unwind(34)]
 fn canary_frag_zoom_out_never_ends() {
     let (w, d) = any_distance();
     let i: usize = kani::any();
